@@ -70,8 +70,8 @@ def obligations():
         okg = g[0] == "boolop" and g[1] == "And" and len(g[2]) == 3
         if okg:
             a, b, c = g[2]
-            okg = (a[:2] == ("cmp", ("Gt",)) and a[2][0][:1] == ("loopvar",) and a[2][0][2] == "last_gain" and a[2][1] == fx.C(0)
-                   and b[:2] == ("cmp", ("Lt",)) and b[2][0][:1] == ("loopvar",) and b[2][0][2] == "n_leaves"
+            okg = (a[:2] == ("cmp", ("Gt",)) and a[2][0][:1] == ("loopvar",) and a[2][1] == fx.C(0)
+                   and b[:2] == ("cmp", ("Lt",)) and b[2][0][:1] == ("loopvar",) and b[2][0] != a[2][0]
                    and c[:2] == ("cmp", ("NotEq",)) and c[2][0][:1] == ("callres",) and c[2][0][2] == "len" and c[2][1] == fx.C(0))
             if okg:
                 ml = b[2][1]
@@ -116,12 +116,16 @@ def obligations():
         ok_args = (len(a) == 10 and kern and a[0] == ("callres", kern[0][1], "self._compute_kernel", kern[0][3], kern[0][4])
                    and kern[0][3] == (Xv, ("var", "y")) and Xv[:1] == ("callres",) and Xv[2] == "validate_data"
                    and a[2][:1] == ("callres",) and a[2][2] == "np.array"
-                   and a[5][:1] == ("loopvar",) and a[5][2] == "n_clusters" and a[6] == _attr(SELF, "max_clusters")
-                   and a[7][:1] == ("loopvar",) and a[7][2] == "n_leaves" and a[8] == _attr(SELF, "min_samples_leaf"))
+                   and a[5][:1] == ("loopvar",) and a[5] not in (g[2][0][2][0], g[2][1][2][0]) and a[6] == _attr(SELF, "max_clusters")
+                   and a[7] == g[2][1][2][0] and a[8] == _attr(SELF, "min_samples_leaf"))      # a[7]: the leaf counter of the loop guard
         ob("find_best_split(kernel(X, y), X, array(queue), Y, Z, n_clusters, max_clusters, n_leaves, min_samples_leaf, features)", ok_args)
         if not ok_args:
             continue
         Yt, Zt, nlv, ncv = a[3], a[4], a[7], a[5]
+        # the gain tested by the loop guard is the gain of the split found in this iteration
+        gv_out = st.env.get(g[2][0][2][0][2])
+        ob("the gain tested by the loop guard is the gain of the split just found", gv_out is not None and gv_out[:1] == ("loopout",) and gv_out[3] == _attr(bs, "gain"),
+           {"got": fx.show(gv_out)[:200] if gv_out is not None else None})
         gain_pos = None
         for c_, b_ in st.pc:
             if c_ == ("cmp", ("Gt",), (_attr(bs, "gain"), fx.C(0))):
@@ -210,9 +214,9 @@ def obligations():
             ob(qname, [e[3] for e in apps] == want and "?" not in size_ok,
                {"appended": [fx.show(e[3][0])[:80] for e in apps], "size tests": {k: v for k, v in size_ok.items()}})
         # counters
-        nl_out = st.env.get("n_leaves")
-        ob("n_leaves += 1 per applied split", nl_out[:1] == ("loopout",) and nl_out[3] == ("binop", "Add", nlv, fx.C(1)))
-        nc_out = st.env.get("n_clusters")
+        nl_out = st.env.get(nlv[2])
+        ob("n_leaves += 1 per applied split", nl_out is not None and nl_out[:1] == ("loopout",) and nl_out[3] == ("binop", "Add", nlv, fx.C(1)))
+        nc_out = st.env.get(ncv[2])
         both = None
         either = None
         lt, rt = _attr(bs, "left_target"), _attr(bs, "right_target")
@@ -223,7 +227,7 @@ def obligations():
                 either = b_
         inc = 2 if both else (1 if either else 0)
         wantc = ("binop", "Add", ncv, fx.C(inc)) if inc else ncv
-        ob("n_clusters += 2 / 1 / 0 when both / one / no target is a new cluster", both is not None and nc_out[:1] == ("loopout",) and nc_out[3] == wantc,
+        ob("n_clusters += 2 / 1 / 0 when both / one / no target is a new cluster", both is not None and nc_out is not None and nc_out[:1] == ("loopout",) and nc_out[3] == wantc,
            {"got": fx.show(nc_out)[:200]})
         # result
         lab = [e for e in ev if e[0] == "store" and e[2] == "labels_"]
